@@ -36,26 +36,31 @@ func initStream(seed int64, n int) {
 }
 
 type genIter struct {
-	it  *database.VerifTreapIterator
-	idx int // universe key it is positioned at; -1 exhausted; -2 new (never positioned)
+	it  database.VerifTreapIterator // by value: no allocation per step
+	idx int                         // universe key it is positioned at; -1 exhausted; -2 new (never positioned)
 }
 
 type mutInst struct {
 	t    *database.VerifTreapMutable
 	m    model
-	prio [4]int // stream index of the priority of each present key (-1 absent/unknown)
+	prio [4]int // priority of each present key as read from the seeded stream (-1 absent/unknown)
 	pos  int    // position in the priority stream
 
-	gen    []genIter // created after the previous step (checked after the next update)
-	walker genIter   // long-lived forward walker: one Next() per step, ForceReseek after each update
+	gen    [6]genIter // created after the previous step (checked after the next update)
+	ngen   int
+	walker genIter // long-lived forward walker: one Next() per step, ForceReseek after each update
 	hist   []string
 }
+
+// checked: histories whose oracles have been evaluated already in this process. BFS reaches a
+// state by replaying its history from a fresh instance; the state-evolving part of a step is
+// always executed, the (pure) oracle part only the first time a history is seen.
+var checked = map[string]bool{}
 
 func newMut() mc.Instance {
 	rand.Seed(jobSeed)
 	in := &mutInst{t: database.VerifNewTreapMutable(), m: emptyModel(), prio: [4]int{-1, -1, -1, -1}}
-	in.walker = genIter{it: in.t.Iterator(nil, nil), idx: -2}
-	in.makeGen()
+	in.walker = genIter{it: newIter(in.t, nil, nil), idx: -2}
 	return in
 }
 
@@ -63,18 +68,18 @@ func (in *mutInst) Ops() []string { return allOps }
 func (in *mutInst) Close()        {}
 
 func (in *mutInst) makeGen() {
-	in.gen = in.gen[:0]
-	in.gen = append(in.gen, genIter{it: in.t.Iterator(nil, nil), idx: -2})
-	ex := in.t.Iterator(nil, nil)
+	in.gen[0] = genIter{it: newIter(in.t, nil, nil), idx: -2}
+	in.gen[1] = genIter{it: newIter(in.t, nil, nil), idx: -1}
+	ex := &in.gen[1].it
 	ex.First()
 	for ex.Next() {
 	}
-	in.gen = append(in.gen, genIter{it: ex, idx: -1})
+	in.ngen = 2
 	for i, v := range in.m {
 		if v >= 0 {
-			it := in.t.Iterator(nil, nil)
-			it.Seek(keys[i])
-			in.gen = append(in.gen, genIter{it: it, idx: i})
+			in.gen[in.ngen] = genIter{it: newIter(in.t, nil, nil), idx: i}
+			in.gen[in.ngen].it.Seek(keys[i])
+			in.ngen++
 		}
 	}
 }
@@ -103,6 +108,14 @@ var softFail func(sig, what string, hist []string)
 
 func (in *mutInst) Apply(op string) *mc.Fail {
 	in.hist = append(in.hist, op)
+	hkey := strings.Join(in.hist, "")
+	first := !checked[hkey]
+	checked[hkey] = true
+	if first {
+		in.makeGen() // iterators created BEFORE the update
+	} else {
+		in.ngen = 0
+	}
 	put, k, v := parseOp(op)
 	wasAbsent := in.m[k] < 0
 	if put {
@@ -122,8 +135,8 @@ func (in *mutInst) Apply(op string) *mc.Fail {
 	if j >= len(stream) {
 		return mc.Failf("C19|mutable|priority-stream", "after %s: marker not found in the priority stream (position %d)", op, in.pos)
 	}
-	if put && wasAbsent && j > in.pos {
-		in.prio[k] = in.pos
+	if put && wasAbsent && j == in.pos+1 {
+		in.prio[k] = stream[in.pos]
 	}
 	in.pos = j + 1
 	m := in.m
@@ -131,12 +144,13 @@ func (in *mutInst) Apply(op string) *mc.Fail {
 	ctx := "after " + op
 
 	// iterators created before this update: notify, then continue in both directions
-	for _, gi := range in.gen {
-		gi.it.ForceReseek()
+	for i := 0; i < in.ngen; i++ {
+		in.gen[i].it.ForceReseek()
 	}
 	in.walker.it.ForceReseek()
 	var cont, repo string
-	for _, gi := range in.gen {
+	for gx := 0; gx < in.ngen && first; gx++ {
+		gi := &in.gen[gx]
 		var wantN, wantP int
 		switch gi.idx {
 		case -2:
@@ -147,7 +161,7 @@ func (in *mutInst) Apply(op string) *mc.Fail {
 			wantN, wantP = m.succ(gi.idx), m.pred(gi.idx)
 		}
 		if cont == "" {
-			c := *gi.it
+			c := gi.it
 			ok := c.Next()
 			for w := wantN; ; w = m.succ(w) {
 				if !atOK(&c, ok, m, w) {
@@ -161,7 +175,7 @@ func (in *mutInst) Apply(op string) *mc.Fail {
 			}
 		}
 		if cont == "" {
-			c := *gi.it
+			c := gi.it
 			ok := c.Prev()
 			for w := wantP; ; w = m.pred(w) {
 				if !atOK(&c, ok, m, w) {
@@ -176,7 +190,7 @@ func (in *mutInst) Apply(op string) *mc.Fail {
 		}
 		// notified iterator that is then repositioned absolutely and moved on
 		if repo == "" {
-			c := *gi.it
+			c := gi.it
 			ok := c.First()
 			if !entryOK(&c, ok, m, m.succ(-1)) {
 				repo = fmt.Sprintf("first|iterator state %d", gi.idx)
@@ -185,7 +199,7 @@ func (in *mutInst) Apply(op string) *mc.Fail {
 			}
 		}
 		if repo == "" {
-			c := *gi.it
+			c := gi.it
 			ok := c.Last()
 			if !entryOK(&c, ok, m, m.pred(4)) {
 				repo = fmt.Sprintf("last|iterator state %d", gi.idx)
@@ -194,7 +208,7 @@ func (in *mutInst) Apply(op string) *mc.Fail {
 			}
 		}
 		for i := 0; i < 4 && repo == ""; i++ {
-			c := *gi.it
+			c := gi.it
 			w := i
 			if m[i] < 0 {
 				w = m.succ(i)
@@ -225,18 +239,23 @@ func (in *mutInst) Apply(op string) *mc.Fail {
 		default:
 			want = m.succ(w.idx)
 		}
-		if !atOK(w.it, w.it.Next(), m, want) {
+		if !atOK(&w.it, w.it.Next(), m, want) {
 			f.add("reseek-continue|walker", "%s (model %v): long-lived iterator (last at %d), ForceReseek after every update, Next does not yield the successor", ctx, m, w.idx)
 			want = -1
 		}
 		if want < 0 {
-			*w = genIter{it: in.t.Iterator(nil, nil), idx: -2}
+			*w = genIter{it: newIter(in.t, nil, nil), idx: -2}
 		} else {
 			w.idx = want
 		}
 	}
-	readFull(in.t, m, &f, ctx)
-	in.makeGen()
+	if first {
+		if fullReadNeeded(0, opIndex(op), m, in.prio) {
+			readFull(in.t, m, &f, ctx)
+		} else if c := readBasic(in.t, m, work0(in.t)); c != "" {
+			f.add(c, "%s: treap disagrees with the sorted-map model %v (%s)", ctx, m, c)
+		}
+	}
 	var hard *mc.Fail
 	for _, x := range f.list {
 		sig := "C19|mutable|" + x[0]
@@ -250,6 +269,11 @@ func (in *mutInst) Apply(op string) *mc.Fail {
 		softFail(sig, x[1], in.hist)
 	}
 	return hard
+}
+
+func work0(t reader) *database.VerifTreapIterator {
+	*work = newIter(t, nil, nil)
+	return work
 }
 
 func (in *mutInst) Digest() string {
